@@ -10,8 +10,10 @@
 (A) Trace_FileConfig: recorded histories of the real FileConfig (verif constructor without the poll goroutine,
     ReloadNowForVerif): external edits over the properties syntax, reloads, 11 getter kinds, observers, write-backs;
     getters on 8 reader goroutines of a child process racing the reloading goroutine.
-    Trace_FsWrite: the system calls of the real write-back recorded with strace, AtomicOnDisk after every call."""
-import os, re
+    Trace_FsWrite: the system calls of the real write-back recorded with strace, AtomicOnDisk after every call.
+Open known findings (generators steer around them only while they are listed in known-findings.json; witnesses
+kf_wbsyntax, kf_wbescape): the write-back understands only `key=value` lines and writes no escapes."""
+import copy, json, os, re
 import vf
 
 ASIS = [  # (cfg, invariant TLC must refute, what golib did)
@@ -35,6 +37,60 @@ def sensitivity(run):
     run.extra["model_sensitivity_former_designs_refuted"] = res
 
 
+def _flip(seq):
+    """another byte tuple: last byte + 1, or one byte appended to an empty one"""
+    return (seq[:-1] + [(seq[-1] + 1) % 256]) if seq else [120]
+
+
+def binding_selftest(run, out, meta, gen, target, corrupt, remove_ev):
+    """Binding demonstration with a corruption that is decisive for this trace format (nested byte
+    tuples): in the first history of `gen` that has an event `target`, (a) corrupt() changes one
+    recorded observation of that event, (b) the first event `remove_ev` that is directly followed by a poll is removed; TLC must reject both."""
+    job = [j for j in meta["jobs"] if j["spec"] == "Trace_FileConfig"][0]
+    hists = vf.split_histories(open(os.path.join(out, job["trace"])).read().splitlines())
+    for h in hists:
+        evs = [json.loads(x) for x in h]
+        if evs[0].get("gen") != gen:
+            continue
+        ti = next((i for i, e in enumerate(evs) if e["ev"] == target and corrupt(copy.deepcopy(e)) is not None), None)
+        # an event whose effect the very next poll must show to at least one observer
+        ri = next((i for i, e in enumerate(evs[:-1]) if e["ev"] == remove_ev and evs[i + 1]["ev"] == "Reload" and evs[0].get("nobs", 0) > 0), None)
+        if ti is None or ri is None:
+            continue
+        res = {}
+        for tag, hh in (("corrupted_field", h[:ti] + [json.dumps(corrupt(copy.deepcopy(evs[ti])), separators=(",", ":"))] + h[ti + 1:]),
+                        ("removed_event", h[:ri] + h[ri + 1:])):
+            p = os.path.join(out, "_selftest18_%s_%s.ndjson" % (gen, tag))
+            open(p, "w").write("\n".join(hh) + "\n")
+            st = run.trace_states
+            acc, hwm, n, r = run.validate_file("Trace_FileConfig", p)
+            run.trace_states = st
+            res[tag + "_rejected"] = not acc
+        res["corrupted"] = dict(event=ti, kind=target)
+        res["removed"] = dict(event=ri, kind=remove_ev)
+        run.selftests["Trace_FileConfig:" + gen] = res
+        if not (res["corrupted_field_rejected"] and res["removed_event_rejected"]):
+            raise vf.MachineryError("binding self-test failed for Trace_FileConfig/%s: %s" % (gen, res))
+        vf.log("SELFTEST Trace_FileConfig %s %s" % (gen, res))
+        return
+    raise vf.MachineryError("self-test found no suitable history of gen %s" % gen)
+
+
+def _corrupt_snap(e):
+    if not e.get("snap"):
+        return None
+    e["snap"][0][1] = _flip(e["snap"][0][1])      # the value the first key is reported with
+    return e
+
+
+def _corrupt_after(e):
+    for ln in e.get("after", []):
+        if ln["t"] == "kv" and ln["v"]:
+            ln["v"] = _flip(ln["v"])                # one byte of a value the write-back left in the file
+            return e
+    return None
+
+
 def body(run):
     th = run.thorough()
     run.mc("MC_FileConfig", cfg="MC_FileConfig_thorough.cfg" if th else "MC_FileConfig.cfg", workers=run.pick(4, 16), coverage=not th)
@@ -47,8 +103,8 @@ def body(run):
     if not ex.get("write_back_syscalls_judged"):
         raise vf.MachineryError("no system call of the write-back was recorded: AtomicOnDisk would be vacuous")
     run.validate(out, meta, max_findings=12)
-    run.selftest(out, meta, gen="edit", spec="Trace_FileConfig", field="snap")
-    run.selftest(out, meta, gen="wb", spec="Trace_FileConfig", field="after", removed=False)
+    binding_selftest(run, out, meta, "edit", "Reload", _corrupt_snap, "Edit")
+    binding_selftest(run, out, meta, "wb", "SetValues", _corrupt_after, "SetValues")
     run.selftest(out, meta, gen="sys", spec="Trace_FsWrite", field="data")
     run.assumptions += [
         "the 3 s poll timer is replaced by ReloadNowForVerif (one poll on demand); the constructor runs without the poll goroutine; file modification times are real but set explicitly (os.Chtimes) so that several edits fall into one second",
@@ -58,6 +114,6 @@ def body(run):
         "float getters are judged exactly on a 24-literal reference table (IEEE binary32 patterns) and on malformed text; other well-formed literals only have to return some float",
         "hash-set getters are judged against standard-library CRC-32 / 31*h+b folds of the tokens",
         "keys that name an environment variable, values containing ${...} expansions and files the properties parser rejects are not generated",
-        "AtomicOnDisk is judged at every system-call boundary of the recorded write-back (strace, successful calls on the configuration directory); page-cache/journal behaviour below the system-call interface is not modelled",
+        "AtomicOnDisk is judged at every system-call boundary of the recorded write-back (strace, successful calls on the configuration directory) and, for a write call on the inode the name refers to, additionally with the write cut after its first byte, in the middle and before its last byte; page-cache/journal behaviour below the system-call interface (e.g. a rename reaching the disk before the data when fsync is omitted) is not modelled",
         "concurrent getters: each observation carries the interval of reloads it overlapped (atomic counters read before and after the call); it must equal the value in one of those versions; a Go runtime abort of the child is an event without an action",
     ]
